@@ -28,8 +28,8 @@ extern int cfg_verif_scanner_state(int *start_cond, int *bufdepth);
 int __lsan_do_recoverable_leak_check(void) __attribute__((weak));
 
 static FILE *LOG;
-static int flush_every;
 static char startdir[4096];
+static int flush_every;
 static const char SENTINEL[] = "verif_stdin_sentinel = 1\n";
 
 /* ------------------------------------------------------------------ util */
@@ -75,6 +75,18 @@ static char *sdec(const char *tok, size_t *len)
 	for (i = 0; i < n; i++)
 		s[i] = (char)(hexv(tok[1 + 2 * i]) * 16 + hexv(tok[2 + 2 * i]));
 	s[n] = 0;
+	/* "@CWD@" stands for the directory the driver was started in (absolute file names in scripts) */
+	if (strstr(s, "@CWD@")) {
+		size_t sl = strlen(startdir), cap = n + 64 * sl + 1, o = 0;
+		char *r = xmalloc(cap), *p = s;
+		while (*p && o + sl + 2 < cap) {
+			if (!strncmp(p, "@CWD@", 5)) { memcpy(r + o, startdir, sl); o += sl; p += 5; }
+			else r[o++] = *p++;
+		}
+		r[o] = 0;
+		free(s);
+		s = r; n = o;
+	}
 	if (len) *len = n;
 	return s;
 }
@@ -1160,6 +1172,33 @@ static void run_op(char **t, int nt)
 		s = sdec(t[1], NULL);
 		logret(op, cfg_parse_boolean(s));
 		free(s);
+		return;
+	}
+	if (!strcmp(op, "mkfile")) {
+		char *path, *content; size_t n; FILE *fp;
+		NEED(3);
+		path = sdec(t[1], NULL); content = sdec(t[2], &n);
+		fp = fopen(path, "w");
+		if (!fp) die("mkfile %s", path);
+		if (n) fwrite(content, 1, n, fp);
+		fclose(fp);
+		free(path); free(content);
+		return;
+	}
+	if (!strcmp(op, "mkdir")) {
+		char *path;
+		NEED(2);
+		path = sdec(t[1], NULL);
+		if (mkdir(path, 0755) && errno != EEXIST) die("mkdir %s", path);
+		free(path);
+		return;
+	}
+	if (!strcmp(op, "symlink")) {
+		char *target, *path;
+		NEED(3);
+		target = sdec(t[1], NULL); path = sdec(t[2], NULL);
+		if (symlink(target, path) && errno != EEXIST) die("symlink %s", path);
+		free(target); free(path);
 		return;
 	}
 	if (!strcmp(op, "setenv")) {
